@@ -24,6 +24,112 @@ def rle_class(inp, obs):
     return "ok " + obs.split()[-1]
 
 
+# ----------------------------------------------------------------- c32.lines
+
+LINES_META = re.compile(r"^lines case=(.*?);fn=(.*?);pl=(\d+)(?:;mk=(\d+))? ::")
+
+
+def lines_key(meta, obs, exp):
+    """canonical class: first failing implementation-level oracle (fixed priority total > straddle > span >
+    marker > run), else the kind of model disagreement; plus the prologue the function carries"""
+    pl = {"0": "none", "2": "PREP_LOCALS8", "3": "PREP_LOCALS16"}.get(meta[2], meta[2])
+    if obs.startswith("panic") or exp.startswith("panic"):
+        return "lines:panic:prologue=%s" % pl
+    o = obs.rsplit(" o=", 1)[-1]
+    if o != "1":
+        return "lines:%s:prologue=%s" % (o.split(":", 1)[-1], pl)
+    n_i = obs.split()[1] if len(obs.split()) > 1 else "?"
+    n_m = exp.split()[1] if len(exp.split()) > 1 else "?"
+    return "lines:model-%s:prologue=%s" % ("total" if n_i != n_m else "lines", pl)
+
+
+def lines_stream(ctx, h, m):
+    stream = "c32.lines"
+    corpus = os.path.join(vlib.ROOT, "corpus", "C32.lines.txt")
+    nwide, nhuge, nshape, nprog = ctx.n(220, 4000), ctx.n(1, 12), ctx.n(40, 400), ctx.n(40, 3000)
+    extra = "lines,wide=%d,huge=%d,shapes=%d" % (nwide, nhuge, nshape)
+    cmd = [h, "-seed", str(ctx.sseed(stream)), "-n", str(nprog), "-tier", ctx.tier, "-extra", extra, "-input", corpus]
+    rc, out = vlib.sh(cmd, timeout=6000, env=vlib.elk_env())
+    ids, inputs, obs = vlib.parse_case_lines(out)
+    if rc != 0 or not ids:
+        ctx.broke("correspondence %s: harness exited %d" % (stream, rc), out[-3000:])
+        if not ids:
+            return
+    usable = [i for i in ids if not obs[i].startswith("unusable")]
+    rc2, exp, mout = vlib.run_model(m, usable, inputs, timeout=6000)
+    if rc2 != 0:
+        ctx.broke("correspondence %s: model driver exited %d" % (stream, rc2), mout[-3000:])
+    dist, distinct, samples = {}, set(), []
+    mism = unusable = 0
+    wide_cases = {}
+    cases_seen, cases_unusable = set(), set()
+    for i in ids:
+        mt = LINES_META.match(inputs[i])
+        meta = mt.groups() if mt else ("?", "?", "0", "0")
+        spec = meta[0]
+        kind = spec.split(":", 1)[0]
+        cases_seen.add(i.split(".")[0])
+        if obs[i].startswith("unusable"):
+            unusable += 1
+            cases_unusable.add(i.split(".")[0])
+            k = "unusable:%s:%s" % (kind, obs[i].split()[1])
+            dist[k] = dist.get(k, 0) + 1
+            if len([x for x in samples if "unusable" in x]) < 2:
+                samples.append({"case": spec, "unusable": obs[i][:200]})
+            continue
+        ops = inputs[i].split(" ::", 1)[1]
+        nops = ops.count(" ")
+        if nops >= 3:
+            distinct.add(hash(ops))
+        cont = ""
+        if kind == "wide":
+            cont = ":" + dict(kv.split("=") for kv in spec[5:].split(","))["cont"]
+            wide_cases.setdefault(i.split(".")[0], [0, 0])
+            wide_cases[i.split(".")[0]][0] += int(meta[3] or "0")          # markers found in the program
+            wide_cases[i.split(".")[0]][1] += 1 if meta[2] != "0" else 0     # functions with a prologue
+        for k in ("%s%s" % (kind, cont), "prologue=%s" % meta[2], "size>=%d" % (10 ** len(str(nops)) // 10)):
+            dist[k] = dist.get(k, 0) + 1
+        if len(samples) < 3 and meta[2] == "3":
+            samples.append({"case": spec, "fn": meta[1], "ops": ops[:160] + " ...", "observed": obs[i][:200]})
+        e = exp.get(i)
+        if e is None:
+            ctx.broke("correspondence %s: model gave no answer for %s fn=%s" % (stream, spec, meta[1]))
+        elif e != obs[i]:
+            mism += 1
+            if mism <= 200:
+                ctx.fail(lines_key(meta, obs[i], e),
+                         "%s, function %s (prologue bytes %s): line table of the compiled function %s; the table the "
+                         "proved operations give for its instruction stream: %s" % (spec, meta[1], meta[2], obs[i][:300], e[:300]),
+                         stream=stream,
+                         case={"spec": spec, "function": meta[1], "ops": ops[:2000],
+                               "replay": "wide specs: a line of corpus/C32.lines.txt; others: h_c32 -extra %s,src=%s -n %d -seed %d"
+                                         % (extra, i.split(".")[0], nprog, ctx.sseed(stream))},
+                         impl=obs[i][:2000], model=e[:2000],
+                         oracle="every byte offset of the function must answer GetLineNumber like the table the model builds "
+                                "from (line, size) of each decoded instruction plus the prologue (C32_rle_refines with "
+                                "OpPrologue, C32_prologue_shift); o= is the implementation-only verdict: table bytes = "
+                                "len(Instructions), no instruction on two lines, lines inside the function's source span, "
+                                "marker calls/literals on the line they name")
+    if len(cases_unusable) * 10 > len(cases_seen):
+        ctx.broke("c32.lines: %d of %d programs were rejected or undecodable" % (len(cases_unusable), len(cases_seen)),
+                  str([s for s in samples if "unusable" in s][:2]))
+    wide_fn = len(wide_cases)
+    wide_marked = len([1 for a, b in wide_cases.values() if a > 0])
+    if wide_fn == 0 or wide_marked * 10 < wide_fn * 9:
+        ctx.broke("c32.lines: only %d of %d wide programs carry a line marker (generator no longer reaches the class)" % (wide_marked, wide_fn))
+    ctx.stream(stream, len(ids) - unusable, len(distinct),
+               "every function of compiled programs (checker.CheckSource in process): wide shapes = 7 containers x 0-3 "
+               "parameters x local counts sweeping the highest slot through 250-260 (PREP_LOCALS8/16 boundary), controls "
+               "with 0-5 locals, shapes with 65530+ locals, call/throw layouts with the line encoded in callee/literal "
+               "names; plus the C29 corpus generators (cfgx.Shapes, cfgx.Program). Per function: instruction starts decoded "
+               "with the real disassembler, operations a<line>:<size>.. p<prologue bytes> handed to the extracted model, "
+               "GetLineNumber compared at every offset -1..len+1 and the table's byte total; second oracle o= on the "
+               "implementation alone (total, straddle, span, marker, run). distinct = distinct operation sequences with "
+               ">= 3 instructions",
+               samples, dist, mismatches=mism, unusable=unusable, programs=len(cases_seen),
+               wide_programs=wide_fn, wide_programs_with_markers=wide_marked)
+
+
 # ----------------------------------------------------------------- c32.prog generator
 
 class Prog:
@@ -77,6 +183,20 @@ class Prog:
             # (checker context not restored; unrelated defect) - keep generator bodies closure-free
             vias[1] = "direct"
         self.kinds, self.vias = kinds, vias
+        # force "wide": some functions (and sometimes the script) declare 247-258 locals on one line, so that their
+        # highest slot is around the PREP_LOCALS8/16 boundary; in them the call sits on a continuation line
+        # (`1 +` newline `f(x)`: the call is the last instruction generated for its line).  Drawn only for the
+        # wide forces, so programs of the other forces are unchanged per seed.
+        self.wide = {}
+        if force.startswith("wide"):
+            for i in range(0, n + 1):
+                if r.chance(1, 2 if i else 3):
+                    self.wide[i] = r.range(247, 258)
+            if not [i for i in self.wide if i]:
+                self.wide[r.range(1, n)] = r.range(247, 258)
+            if force == "wide16":
+                for i in self.wide:
+                    self.wide[i] = r.range(300, 700)
         self.lines = []          # source lines
         self.entries = []        # expected trace: threads -> list of (name, line, tcc)
         self.layouts = []
@@ -128,6 +248,9 @@ class Prog:
             if self.kinds[i - 1] == "gen":
                 body.append(ind + "yield 1")
                 self.pad(body, ind)
+            if i in self.wide:
+                body.append(ind + ";".join("v%d := %d" % (j, j % 10) for j in range(self.wide[i])))
+                self.pad(body, ind)
             safe_locals = i == n or self.vias[i] in ("closure", "closure_tail", "map")
             if safe_locals and r.chance(1, 2):
                 body.append(ind + "w := x + %d" % r.range(1, 9))
@@ -139,8 +262,8 @@ class Prog:
             else:
                 via = self.vias[i]
                 layout = r.choice(["one", "one", "args", "dot", "dotargs"])
-                pre_plus = r.chance(1, 4)
-                self.layouts.append(via + "/" + layout + ("/plus" if pre_plus else ""))
+                pre_plus = r.chance(1, 4) or i in self.wide
+                self.layouts.append(via + "/" + layout + ("/plus" if pre_plus else "") + ("/wide" if i in self.wide else ""))
                 self.emit_call(body, marks, i, i + 1, via, layout, pre_plus, ind,
                                in_gen=self.kinds[i - 1] == "gen", in_async=self.kinds[i - 1] == "async")
             bodies[i] = body
@@ -174,8 +297,10 @@ class Prog:
         sbody = []
         smarks = {}
         layout = r.choice(["one", "args", "dot", "dotargs"])
-        pre_plus = r.chance(1, 4)
-        self.layouts.insert(0, self.vias[0] + "/" + layout + ("/plus" if pre_plus else ""))
+        pre_plus = r.chance(1, 4) or 0 in self.wide
+        self.layouts.insert(0, self.vias[0] + "/" + layout + ("/plus" if pre_plus else "") + ("/wide" if 0 in self.wide else ""))
+        if 0 in self.wide:
+            sbody.append(";".join("v%d := %d" % (j, j % 10) for j in range(self.wide[0])))
         self.emit_call(sbody, smarks, 0, 1, self.vias[0], layout, pre_plus, "", in_gen=False, in_async=False, script=True)
         base0 = len(out)
         out += sbody
@@ -404,7 +529,8 @@ def classify(p, exp, obs):
         for k, (a, b) in enumerate(zip(exp, obs)):
             if a != b:
                 what = "line" if (a[0], a[2]) == (b[0], b[2]) else ("tailcalls" if (a[0], a[1]) == (b[0], b[1]) else "frame")
-                return "wrong-%s" % what
+                fi = 0 if a[0] == SCRIPT_ID else a[0]
+                return "wrong-%s" % what + (":wide-prologue" if what == "line" and fi in p.wide else "")
     return "chain-differs:%s" % ("longer" if len(obs) > len(exp) else "shorter")
 
 
@@ -420,10 +546,15 @@ def prog_stream(ctx, elk, model):
                 kv = dict(x.split("=", 1) for x in l.split())
                 progs.append(Prog(int(kv["seed"]), int(kv["depth"]), kv.get("force", "")))
     ncorpus = len(progs)
-    n = ctx.n(320, 10000)
+    n = ctx.n(290, 10000)
     forces = ["", "", "", "map", "for", "await", "tail", "closure_ml", "closure_tail"]
     for k in range(n):
         progs.append(Prog(rng.below(1 << 40), rng.range(1, 8), rng.choice(forces)))
+    # second generation (own random stream, so the programs above are unchanged per seed): functions with a wide
+    # PREP_LOCALS prologue somewhere in the chain
+    wrng = ctx.rng(stream + ".wide")
+    for k in range(ctx.n(44, 1500)):
+        progs.append(Prog(wrng.below(1 << 40), wrng.range(1, 6), wrng.choice(["wide", "wide", "wide", "wide16"])))
     ids = ["p%d" % k for k in range(len(progs))]
     # model expectation
     inputs = {i: p.scenario() for i, p in zip(ids, progs)}
@@ -446,6 +577,8 @@ def prog_stream(ctx, elk, model):
         for v in set(p.vias):
             dist[v] = dist.get(v, 0) + 1
         dist["depth%d" % len(p.kinds)] = dist.get("depth%d" % len(p.kinds), 0) + 1
+        if p.wide:
+            dist["wide-prologue"] = dist.get("wide-prologue", 0) + 1
         tr = parse_trace(out, fname)
         if cls in ("go_panic", "go_fatal", "timeout", "signal") or tr is None or 'Uncaught thrown value: "boom"' not in out:
             crashed += 1
@@ -483,15 +616,28 @@ def prog_stream(ctx, elk, model):
 def run(ctx):
     ctx.explanation = (
         "Proved (Coq, all operation sequences by induction over fold_left): the run-length line table refines the plain "
-        "byte->line list for every sequence of AddLineNumber/AddBytesToLastLine/RemoveByte(s) within the callers' "
-        "preconditions, incl. identical panics; BuildStackTrace lists exactly the non-empty frames in stack order with the "
-        "running function last and lines taken at ip-1; BuildStackTracePrepend/await chains concatenate outermost first. "
-        "Differential only: that the compiler emits the right line for each instruction, that the VM's frames are the "
-        "active call chain (tail calls, nested runs under native methods, promises) - exercised by generated programs whose "
-        "printed trace is compared with the chain the extracted model assembles from the generator's frame scenario.")
+        "byte->line list for every sequence of AddLineNumber/AddBytesToLastLine/RemoveByte(s) and of the compiler's "
+        "prologue insertion (prepLocals: n bytes credited to the first run = n copies of the line of byte 0 in front of the "
+        "plain list) within the callers' preconditions, incl. identical panics; C32_prologue_shift: after the insertion "
+        "every old offset i answers at i+n, the inserted offsets answer the first line, the table accounts for n more bytes; "
+        "BuildStackTrace lists exactly the non-empty frames in stack order with the running function last and lines taken "
+        "at ip-1; BuildStackTracePrepend/await chains concatenate outermost first. "
+        "Differential only: that the compiler emits the right line for each instruction and credits the prologue with its "
+        "real size (c32.lines: every function of compiled programs, incl. shapes around the PREP_LOCALS8/16 boundary and "
+        "65530+ locals, is decoded and its table compared at every byte offset with the table the extracted model builds "
+        "from the decoded (line, size) operations plus the prologue; implementation-level oracles: table bytes = "
+        "len(Instructions), no instruction on two lines, lines within the function's span, calls/literals that name their "
+        "line are on it), and that the VM's frames are the active call chain (tail calls, nested runs under native methods, "
+        "promises) - c32.prog: generated programs, incl. chains through functions with a wide prologue whose call is the "
+        "last instruction of its line, whose printed trace is compared with the chain the extracted model assembles from "
+        "the generator's frame scenario.")
     ctx.trusted_base += [
         "Go int modelled as unbounded Z for byte counts (no overflow: counts are bounded by one function's bytecode size)",
-        "compiler's direct edits of InstructionCount (removeBytes, prepLocals) are not modelled; covered only end to end by c32.prog",
+        "compiler.removeBytes (direct InstructionCount edit when an empty EXEC block is dropped) is not modelled; its results "
+        "are covered by the implementation-level oracles of c32.lines and end to end by c32.prog",
+        "c32.lines reconstructs the operation sequence from the compiled function (real disassembler for instruction sizes, "
+        "the table itself for the line of each instruction's first byte): it ties table shape, byte totals and prologue "
+        "accounting to the model, not the compiler's choice of line, which only the marker oracle and c32.prog check",
         "c32.prog expectation: call-site line = first line of the call expression; frame scenario (ip, tables) is synthetic",
     ]
     ctx.run_proof_gate()
@@ -504,5 +650,6 @@ def run(ctx):
                       "second oracle o= compares with a plain []int kept by the harness; distinct by full input",
                       corpus=os.path.join(vlib.ROOT, "corpus", "C32.rle.txt"),
                       nontrivial=lambda i, o: len(i.split()) >= 3, classify=rle_class)
+    lines_stream(ctx, h, m)
     elk = vlib.build_elk()
     prog_stream(ctx, elk, m)
